@@ -41,6 +41,7 @@ def space(ctx):
 
 def shards(ctx):
     import androguard.core.analysis.analysis  # noqa  (warm the import before the pool forks)
+    C.freeze_heap()
     return C.xm3_shards(ctx)
 
 
